@@ -1,0 +1,45 @@
+// Verification hooks (compiled only with `--cfg yui_verif`).
+//
+// A test harness may install a process-global callback that receives one event per
+// schedule point / linearization point of the parallel pivot search. `Gate` events are
+// emitted while no library lock is held and the callback is allowed to block there;
+// `Retry` and `Commit` are emitted while the write lock on the shared pivot table is held,
+// so their order of emission is the order of the changes they describe.
+
+use std::sync::{Arc, RwLock};
+
+#[derive(Clone, Debug)]
+pub enum Event { 
+    // the state right before the parallel phase: pivot table (in insertion order, pivot orientation) and the remaining rows.
+    Init { pivots: Vec<(usize, usize)>, remain_rows: Vec<usize> },
+    // schedule points (may block)
+    GateTaskStart { row: usize },
+    GateBeforeLock { row: usize, cand: usize },
+    // the thread-local snapshot was caught up to `seen` pivots.
+    Started { row: usize, seen: usize },
+    // the local search found no admissible candidate.
+    NoCand { row: usize },
+    // under the write lock: stale snapshot detected, caught up to `seen` pivots.
+    Retry { row: usize, seen: usize },
+    // under the write lock: pivot (row, col) appended as the `index`-th pivot.
+    Commit { row: usize, col: usize, index: usize },
+}
+
+type Hook = Arc<dyn Fn(&Event) + Send + Sync>;
+
+static HOOK: RwLock<Option<Hook>> = RwLock::new(None);
+
+pub fn set_hook(f: Hook) { 
+    *HOOK.write().unwrap() = Some(f);
+}
+
+pub fn clear_hook() { 
+    *HOOK.write().unwrap() = None;
+}
+
+pub(crate) fn emit(e: Event) { 
+    let hook = HOOK.read().unwrap().clone();
+    if let Some(f) = hook { 
+        f(&e)
+    }
+}
